@@ -18,6 +18,15 @@ class Check(RuntimeCheck):
         self._translator = msg
         return super().run(tier, seed, replay)
 
+    def extra(self, rep, tier, seed):
+        # an in-order call is accepted through ANY alternative of its slot's matching! pattern (diagnostics collection must not decide)
+        from .macro_common import MacroCheck
+        class Generated(MacroCheck):
+            prop = 'C04'
+            case_prefixes = ('ord.',)
+            facts_of_interest = r'$^'
+        Generated().explore_into(rep, tier, seed, ir=False, merge=True)
+
     def extra_assumptions(self):
         return ["tools/translate_counter.py: " + getattr(self, '_translator', 'not run') + " (an UNRECOGNISED function is tied by the correspondence run only)"]
 
